@@ -105,6 +105,17 @@ def run(tier):
     lap = vlib.run_to_file([py["python"], drv, so, sp, "@linalg", str(vlib.SEED), tier], os.path.join(chk.work, "scalar-linalg.ndjson"), timeout=1800, env=e2)
     lfiles, _ = vlib.split_file(lap, 8, chk.work, "scalarla")
     chk.traces("LinAlgTrace", lfiles, what="scalar bindings of dot / cross / quaternion and matrix products / vector x matrix (plain and homogeneous, operator and multVecMatrix) / determinant / transposed for V2-4, M22-44, Quat in float and double, against the algebraic definitions (C05's spec)", episodes=1)
+    vnp = vlib.run_to_file([py["python"], drv, so, sp, "@vecnorm", str(vlib.SEED), tier], os.path.join(chk.work, "scalar-vecnorm.ndjson"), timeout=1800, env=e2)
+    vres = vlib.validate_shards("VecNormTrace", [vnp], timeout=3600)
+    vbad = 0
+    for r_ in vres:
+        for (ln, wh) in r_["bad"]:
+            vbad += 1
+            chk._bad("VecNormTrace", r_["file"], ln, wh, vlib.read_line(r_["file"], ln), None)
+    chk.cov["records_validated"] += sum((r_["accepted"] or 0) for r_ in vres)
+    chk.cov["trace_runs"].append({"module": "VecNormTrace", "files": 1, "records": sum((r_["accepted"] or 0) for r_ in vres), "rejected": vbad,
+                                  "what": "scalar bindings of length / length2 / dot and the six normalisation forms of V2/V3/V4 in float and double (zero, axis, generic, huge, tiny and subnormal vectors) against C08/C07's relations"})
+    vlib.log("[C20] trace VecNormTrace: %d records, %d rejected (scalar bindings of the normalisation forms)" % (sum((r_["accepted"] or 0) for r_ in vres), vbad))
     combos = 0
     for f in files:
         combos += sum(1 for line in open(f) if line.startswith('{"e": "ref"'))
